@@ -307,6 +307,16 @@ class RefInterp(ObjInterp):
             pointee = None
             if self.is_field(base):
                 pointee = (tu.sd(base).get('ct') or '').replace('const', '').replace('*', '').strip()
+            elif base is not None and base.get('kind') in CALLS:
+                # a followed helper applied to one handle (detail::identityOf(a)): typed iff it returns a pointer to a class
+                cf = tu.callee_fn(base)
+                s_, o_, args_ = tu.call_parts(base)
+                hargs = [handle_type(tu.sd(tu.strip(a_, casts=True)).get('ct')) for a_ in args_]
+                if cf is not None and self.is_own_fn(cf) and len(args_) == 1 and hargs[0] and o_ is None:
+                    pointee = hargs[0][len(IP) + 1:-1].strip()
+                    rct = (tu.sd(base).get('ct') or '').replace('const ', '').replace('volatile ', '').strip()
+                    if untyped is None and (rct in ('void *', 'void*') or not is_ptr_ct(rct)) and rct != 'bool':
+                        untyped = 'helper %s returning `%s`' % (cf['q'].split('::')[-1], tu.sd(base).get('ct'))
             info.append((untyped, pointee))
         (ua, pa), (ub, pb) = info
         if pa and pb and pa != pb and (ua or ub):
@@ -734,7 +744,13 @@ def source_of(f, env, d0):
 def role_of(f):
     name = f['q'].split('::')[-1]
     if f.get('rec') != IP:
-        return 'compare' if re.match(r'operator(==|!=|<|>|<=|>=)$', name) else None
+        if re.match(r'operator(==|!=|<|>|<=|>=)$', name):
+            return 'compare'
+        ps = f.get('params', [])
+        if not f.get('rec') and len(ps) == 1 and handle_type(ps[0]['ct']) and ps[0]['ct'].strip().startswith('const ') \
+                and not ps[0]['ct'].rstrip().endswith('&&'):
+            return 'free-reader'      # free helper that receives one handle by const reference (e.g. detail::identityOf)
+        return None
     if f.get('dtor'):
         return 'dtor'
     if f.get('ctor') == 'default':
@@ -931,6 +947,11 @@ def post(role, f, env, d0, d, rv, handles):
         if d.get('$ev') or any(d.get(h) != d0.get(h) for h in hs):
             return [('side-effect', 'comparison modifies a handle or a count')]
         return []
+    if role == 'free-reader':
+        h = env[f['params'][0]['id']]
+        if d.get('$ev') or d.get(h) != d0.get(h):
+            return [('side-effect', 'a helper that takes the handle by const reference modifies it or a count')]
+        return []
     # live handles at exit
     final = [h for h in handles if h != 'this' or role != 'dtor']
     if role in ('copy-ctor', 'move-ctor', 'default-ctor') and 'this' not in final:
@@ -1091,8 +1112,10 @@ def check_counter(ctx, tu):
         else:
             ctx.undecided(R2, inst, 'initial value of the counter is not a constant the analysis can read', tu.fn_loc(f))
     # -- refInc / refDec / useCount
-    n += check_rmw_fn(ctx, tu, finc, counter_ids, +1, file)
-    n += check_rmw_fn(ctx, tu, fdec, counter_ids, -1, file)
+    followed = set()
+    n += check_rmw_fn(ctx, tu, finc, counter_ids, +1, file, followed)
+    n += check_rmw_fn(ctx, tu, fdec, counter_ids, -1, file, followed)
+    FOLLOWED_HELPERS[id(tu)] = followed
     n += 1
     g = tu.cfg(fuse)
     inst = 'RefCountedObject::useCount'
@@ -1131,7 +1154,70 @@ def const_init(tu, init):
     return None
 
 
-def check_rmw_fn(ctx, tu, f, counter_ids, sign, file):
+FOLLOWED_HELPERS = {}      # id(tu) -> ids of RefCountedObject helpers whose bodies were spliced into refInc/refDec
+
+
+def touches_counter(tu, fn, counter_ids):
+    g = tu.cfg(fn)
+    if g is None:
+        return False
+    for b, i, x in g.stmts():
+        if atomic_call(tu, x, counter_ids) or x.get('kind') == 'CXXDeleteExpr' or fence_mo(tu, x) is not None:
+            return True
+        if x.get('kind') == 'CXXMemberCallExpr':
+            cf = tu.callee_fn(x)
+            if cf is not None and cf.get('recid') == fn.get('recid') and cf['id'] != fn['id'] and touches_counter(tu, cf, counter_ids):
+                return True
+    return False
+
+
+def expand_paths(tu, f, counter_ids, looped=False, depth=0, followed=None):
+    """paths of f as item lists: ('S', node) statement elements, ('C', cond node, taken successor index) branch decisions,
+    ('B', call id, return expr) the value a followed helper returned, ('U', text) something not understood.
+    Calls on *this to other members of the same class that touch the counter / delete / fence (private helpers such as
+    `bool dropReference()`) are followed: their paths are spliced in at the call site."""
+    g = tu.cfg(f)
+    out = []
+    for path in (cfg_paths_unrolled(g) if looped else cfg_paths(g)):
+        traces = [[]]
+        for blk, taken in path:
+            for e in blk.el:
+                if e[0] != 'S':
+                    continue
+                x = tu.node(e[1])
+                if x is None:
+                    continue
+                sub = None
+                if x.get('kind') == 'CXXMemberCallExpr':
+                    cf = tu.callee_fn(x)
+                    s_, obj, a_ = tu.call_parts(x)
+                    if cf is not None and cf.get('recid') == f.get('recid') and cf['id'] != f['id'] and \
+                            (obj is None or tu.is_this(obj)) and touches_counter(tu, cf, counter_ids):
+                        if depth >= 3 or tu.cfg(cf).back_edges() or cf.get('virt'):
+                            sub = [[('U', 'call of %s at %s is not followed (depth / loop / virtual)' % (cf['q'], tu.loc(x)))]]
+                        else:
+                            if followed is not None:
+                                followed.add(cf['id'])
+                            sub = []
+                            for tr in expand_paths(tu, cf, counter_ids, False, depth + 1, followed):
+                                rets = [it[1] for it in tr if it[0] == 'S' and it[1].get('kind') == 'ReturnStmt']
+                                rexpr = tu.kids(rets[-1])[0] if rets and tu.kids(rets[-1]) else None
+                                sub.append(list(tr) + [('B', x['id'], rexpr)])
+                if sub is None:
+                    for tr in traces:
+                        tr.append(('S', x))
+                else:
+                    traces = [tr + st for tr in traces for st in sub][:256]
+            if taken is not None and blk.cond:
+                c = tu.node(blk.cond)
+                if c is not None:
+                    for tr in traces:
+                        tr.append(('C', c, taken))
+        out += traces
+    return out
+
+
+def check_rmw_fn(ctx, tu, f, counter_ids, sign, file, followed=None):
     R2 = 'R-C08-2'
     g = tu.cfg(f)
     name = f['q'].split('::')[-1]
@@ -1151,7 +1237,7 @@ def check_rmw_fn(ctx, tu, f, counter_ids, sign, file):
             lhs = tu.strip(tu.kids(x)[0])
             if lhs.get('kind') == 'DeclRefExpr':
                 assigned.add(lhs.get('referencedDecl', {}).get('id'))
-    paths = cfg_paths_unrolled(g) if looped else cfg_paths(g)   # loops that do not touch the counter: body seen 0 and 1 times
+    paths = expand_paths(tu, f, counter_ids, looped, 0, followed)
     if not paths:
         ctx.undecided(R2, inst, 'no path through %s' % name, tu.fn_loc(f))
         return 1
@@ -1170,15 +1256,22 @@ def check_rmw_fn(ctx, tu, f, counter_ids, sign, file):
         env_vars = {}     # var decl id -> init expr
         feas = set(range(0, 4))
         cond_seen_before_rmw = False
-        for blk, taken in path:
-            for e in blk.el:
-                if e[0] != 'S':
-                    continue
-                x = tu.node(e[1])
-                if x is None:
-                    continue
+        binds = []        # (call node id of a followed helper, its return expression on this path)
+        for item in path:
+            if item[0] == 'B':
+                binds.append((item[1], item[2]))
+                continue
+            if item[0] == 'U':
+                undec.append(item[1])
+                continue
+            if item[0] == 'S':
+                x = item[1]
                 a = atomic_call(tu, x, counter_ids)
                 fm = fence_mo(tu, x)
+                if not a and x.get('kind') in CALLS + ('CXXConstructExpr',):
+                    s_, o_, args_ = tu.call_parts(x)
+                    if any(y.get('id') and tu.sd(y).get('d') in counter_ids for a_ in args_ for y in tu.walk(a_)):
+                        undec.append('the counter is handed to %s at %s, whose effect on it is not followed' % (tu.sd(x).get('q', '?'), tu.loc(x)))
                 if fm is not None:
                     seq.append(('fence', fm))
                 if a:
@@ -1223,8 +1316,8 @@ def check_rmw_fn(ctx, tu, f, counter_ids, sign, file):
                     o = tu.strip(tu.kids(x)[0], casts=True)
                     if o is not None and tu.sd(o).get('d') in counter_ids and x.get('opcode') in ('++', '--', '=', '+=', '-='):
                         problems.append(('non-atomic-update', 'plain `%s` on the counter' % x.get('opcode'), tu.loc(x)))
-            if taken is not None and blk.cond:
-                c = tu.node(blk.cond)
+            elif item[0] == 'C':
+                c, taken = item[1], item[2]
                 if not rmw:
                     cond_seen_before_rmw = True
                 # does the condition read the counter again?
@@ -1256,13 +1349,18 @@ def check_rmw_fn(ctx, tu, f, counter_ids, sign, file):
                             v = int_eval(tu, init, env)
                             if v is not None:
                                 env[vid] = v
+                        for cid, rexpr in binds:          # value returned by a followed helper on this path
+                            v = int_eval(tu, rexpr, env) if rexpr is not None else None
+                            if v is not None:
+                                env[cid] = v
                         v = int_eval(tu, c, env)
                         if v is None:
                             known = False
                             break
                         if bool(v) == (taken == 0):
                             ok_vals.add(new)
-                    depends = any(y.get('id') == x['id'] for y in tu.walk(c)) or any(
+                    depends = any(y.get('id') in [cid for cid, r_ in binds] for y in tu.walk(c)) or \
+                        any(y.get('id') == x['id'] for y in tu.walk(c)) or any(
                         y.get('kind') == 'DeclRefExpr' and y.get('referencedDecl', {}).get('id') in env_vars and
                         any(z.get('id') == x['id'] for z in tu.walk(env_vars[y['referencedDecl']['id']])) for y in tu.walk(c))
                     if not known and not depends:
@@ -1377,7 +1475,7 @@ def check_coverage(ctx, tu, seen_patterns, counter_ids, lib_tus):
                               'were not analysed', tu.fn_loc(f))
     analysed_patterns = {pattern_name(tu, f) for f in tu.functions.values() if not f['dep'] and (
         (f.get('rec') == IP and (role_of(f) is not None or is_private_helper(tu, f))) or (f.get('rec') == RCO and (f['q'] in (INC, DEC, USE) or f.get('ctor') or f.get('dtor')))
-        or (not f.get('rec') and role_of(f) == 'compare'))}
+        or (not f.get('rec') and role_of(f) in ('compare', 'free-reader')))}
     # who touches, in the driver unit and in every library source
     for t in [tu] + list(lib_tus):
         for f in t.functions.values():
@@ -1392,7 +1490,7 @@ def check_coverage(ctx, tu, seen_patterns, counter_ids, lib_tus):
             if t is not tu:
                 # other units: match by qualified name of the member / callee
                 b = t.body(f)
-                if not (f.get('rec') in (IP, RCO) or (not f.get('rec') and f['q'].startswith('rkcommon::memory::operator'))):
+                if not (f.get('rec') in (IP, RCO) or (not f.get('rec') and f['q'].startswith('rkcommon::memory::') and role_of(f) is not None)):
                     tch = set()          # users of the handle: only direct access to the data members matters
                     for x in (t.walk(b) if b is not None else ()):
                         sd = t.sd(x) if x.get('id') else {}
@@ -1404,13 +1502,16 @@ def check_coverage(ctx, tu, seen_patterns, counter_ids, lib_tus):
             if not tch:
                 continue
             n += 1
-            own = f.get('rec') in (IP, RCO) or (not f.get('rec') and f['q'].startswith('rkcommon::memory::operator'))
+            own = f.get('rec') in (IP, RCO) or (not f.get('rec') and f['q'].startswith('rkcommon::memory::') and role_of(f) is not None)
             inst = '%s %s [%s]' % (f['q'], f['fty'], t.unit)
             if own and t is tu:
                 known = (f.get('rec') == RCO and (f['q'] in (INC, DEC, USE) or f.get('ctor') or f.get('dtor'))) or \
                         (f.get('rec') != RCO and (role_of(f) is not None or is_private_helper(tu, f)))
                 if 'counter' in tch and not (f.get('rec') == RCO and (f['q'] in (INC, DEC, USE) or f.get('ctor'))):
                     known = False
+                if f.get('rec') == RCO and f['id'] in FOLLOWED_HELPERS.get(id(tu), ()) and f.get('access') == 'private' \
+                        and not f.get('virt') and not has_friends(tu, RCO.split('::')[-1]):
+                    known = True      # private helper whose body was spliced into refInc/refDec at every call site
                 if known:
                     ctx.ok(R4, inst, 'analysed (%s)' % ', '.join(sorted(tch)), t.fn_loc(f), nontrivial=False)
                 else:
